@@ -212,8 +212,14 @@ class VerifyingKey(object):
                 generator=True,
             )
         else:
-            self.pubkey.point = ellipticcurve.PointJacobi.from_affine(
-                self.pubkey.point, True
+            pt = self.pubkey.point
+            self.pubkey.point = ellipticcurve.PointJacobi(
+                pt.curve(),
+                pt.x(),
+                pt.y(),
+                1,
+                self.curve.order,
+                generator=True,
             )
         # as precomputation in now delayed to the time of first use of the
         # point and we were asked specifically to precompute now, make
